@@ -789,7 +789,16 @@ impl Server {
                         
                         // Handle SYNC/PSYNC commands that need connection access
                         if command == "SYNC" || command == "PSYNC" {
-                            sync_response = Some(self.handle_sync_command(&command, parts, id)?);
+                            // Replication handshakes pass the same authentication gate as
+                            // every other command (an unauthenticated one falls through
+                            // to process_frame and is answered with NOAUTH)
+                            let authenticated = self.config.password.is_none()
+                                || self.connections.with_connection(id, |conn| {
+                                    conn.state == ConnectionState::Authenticated
+                                }).unwrap_or(false);
+                            if authenticated {
+                                sync_response = Some(self.handle_sync_command(&command, parts, id)?);
+                            }
                         }
                     }
                 }
